@@ -17,6 +17,7 @@ type c05Sub struct {
 	Region string
 	Tgt    int    // index into Tgts, -1 if not applicable
 	Form   string // assertions: "2" two-result form, "1" one-result form
+	NoUse  bool   // assertions, one-result form: the result is not used afterwards
 }
 
 type c05ProbeX struct {
@@ -58,15 +59,28 @@ func (u *c05Univ) srcMethods(src string) map[string]int {
 // yStaticReject: typecheck.typeAssertionExpr rejects a non-pointer concrete target when the
 // depth-first method of some source method name has a pointer receiver (embedded pointers ignored).
 func (u *c05Univ) yStaticReject(src string, o int, optr bool) bool {
-	if optr {
-		return false
-	}
-	for n := range u.srcMethods(src) {
-		if s := u.yDyn(o, n); s.Kind == "method" && s.Meth.Ptr {
-			return true
+	return u.yStaticRejectWhy(src, o, optr) != ""
+}
+
+// yStaticRejectWhy: "" | "assert-static-ptr" | "assert-static-sig".  The static check looks the
+// methods of the source interface up depth first in the target type: it rejects a non-pointer
+// target when that method has a pointer receiver, and any target when that method's signature
+// differs from the interface's (Go compares with the shallowest method, which the target does have).
+func (u *c05Univ) yStaticRejectWhy(src string, o int, optr bool) string {
+	sm := u.srcMethods(src)
+	for _, n := range sortedKeys(sm) {
+		s := u.yDyn(o, n)
+		if s.Kind != "method" {
+			continue
+		}
+		if !optr && s.Meth.Ptr {
+			return "assert-static-ptr"
+		}
+		if s.Meth.Sig != sm[n] {
+			return "assert-static-sig"
 		}
 	}
-	return false
+	return ""
 }
 
 func (u *c05Univ) conflicting(src string, j int) bool {
@@ -121,7 +135,7 @@ func (st *c05State) buildPrograms(un *c05Unit, r *rng, newID func() int) {
 		switch {
 		case reg == "":
 			mainP = append(mainP, p)
-		case reg == "field-method-depth" || reg == "assert-static-ptr" || reg == "embed-cycle":
+		case reg == "field-method-depth" || reg == "assert-static-ptr" || reg == "assert-static-sig" || reg == "embed-cycle":
 			singleP = append(singleP, p)
 		default:
 			regionP = append(regionP, p)
@@ -225,10 +239,12 @@ func (st *c05State) buildPrograms(un *c05Unit, r *rng, newID func() int) {
 			src = "interface{}"
 		}
 		p := &c05ProbeX{c05Probe: &c05Probe{Kind: "assert", T: t, Ptr: ptr, Src: src}, Dyn: t}
+		noUse := false
 		addTgt := func(tg c05Tgt, reg2, reg1 string) {
 			p.Tgts = append(p.Tgts, tg)
 			k := len(p.Tgts) - 1
-			p.Subs = append(p.Subs, &c05Sub{ID: newID(), Region: reg2, Tgt: k, Form: "2"}, &c05Sub{ID: newID(), Region: reg1, Tgt: k, Form: "1"})
+			p.Subs = append(p.Subs, &c05Sub{ID: newID(), Region: reg2, Tgt: k, Form: "2"}, &c05Sub{ID: newID(), Region: reg1, Tgt: k, Form: "1", NoUse: noUse})
+			noUse = false
 		}
 		for j := range u.Ifaces {
 			if u.conflicting(src, j) {
@@ -248,9 +264,14 @@ func (st *c05State) buildPrograms(un *c05Unit, r *rng, newID func() int) {
 			}
 			if reg1 == "" && g {
 				// the one-result form goes on to call a method of the target interface on the result
-				mn, _ := u.firstIfaceMethod(j)
+				mn, msig := u.firstIfaceMethod(j)
 				if _, _, sr := u.selRegion(t, mn); sr != "" {
 					reg1 = sr
+					if yd := u.yDyn(t, mn); yd.Kind != "method" || yd.Meth.Sig != msig {
+						// yaegi would dispatch the call to a method of another arity (a panic, not an identity):
+						// the assertion itself agrees with Go, the result is left unused
+						reg1, noUse = "", true
+					}
 				}
 			}
 			addTgt(c05Tgt{"iface", j}, reg2, reg1)
@@ -273,8 +294,8 @@ func (st *c05State) buildPrograms(un *c05Unit, r *rng, newID func() int) {
 						continue
 					}
 					reg := ""
-					if u.yStaticReject(src, o, optr) {
-						reg = "assert-static-ptr"
+					if why := u.yStaticRejectWhy(src, o, optr); why != "" {
+						reg = why
 					}
 					addTgt(c05Tgt{kind, o}, reg, reg)
 				}
@@ -466,16 +487,21 @@ func (st *c05State) buildPrograms(un *c05Unit, r *rng, newID func() int) {
 func (st *c05State) splitAssert(p *c05ProbeX, add func(*c05ProbeX)) {
 	byReg := map[string][]*c05Sub{}
 	for _, s := range p.Subs {
-		byReg[s.Region] = append(byReg[s.Region], s)
+		k := s.Region
+		if s.NoUse {
+			k += "\x00nouse"
+		}
+		byReg[k] = append(byReg[k], s)
 	}
-	for _, reg := range sortedKeys(byReg) {
-		subs := byReg[reg]
-		if reg == "assert-static-ptr" {
+	for _, key := range sortedKeys(byReg) {
+		subs := byReg[key]
+		reg := strings.TrimSuffix(key, "\x00nouse")
+		if reg == "assert-static-ptr" || reg == "assert-static-sig" {
 			// compile error in yaegi: one target per program
 			subs = subs[:2]
 		}
 		q := &c05ProbeX{c05Probe: &c05Probe{Kind: "assert", T: p.T, Ptr: p.Ptr, Src: p.Src}, Dyn: p.Dyn}
-		if reg == "assert-sig" || reg == "assert-methodset" {
+		if reg == "assert-sig" || reg == "assert-methodset" || key != reg {
 			// the assertion wrongly succeeds; calling the mismatched method would panic for another reason
 			q.Form = "nouse"
 		}
